@@ -602,11 +602,37 @@ func run(p *kernel.Plan) (res *kernel.Result) {
 			}
 		}
 	}
-	_ = pongsOnWire
-	_ = pingsFed
-	if !bytes.Equal(nil, nil) {
-		return res
+	// pongs written for the peer's pings: an in-order subsequence of the pings
+	// fed; all of them when nothing could legitimately prevent one (no close
+	// frame, no closer, no stall, reader ran to the end of the stream)
+	var pongs [][]byte
+	for _, f := range ctrl {
+		if f.Op == 10 && !bytes.HasPrefix(f.Payload, []byte("#")) {
+			pongs = append(pongs, f.Payload)
+		}
 	}
+	pi := 0
+	for _, pg := range pongs {
+		for pi < len(pingsFed) && !bytes.Equal(pingsFed[pi], pg) {
+			pi++
+		}
+		if pi == len(pingsFed) {
+			return res.Fail("C15/pong-unknown", "a pong with payload %q is on the wire that answers no ping in order (pings fed: %d)", clipb(pg), len(pingsFed))
+		}
+		pi++
+	}
+	if closeIdx < 0 && !closedByCloser && stalls == 0 && readErr != nil && len(pongs) != len(pingsFed) {
+		peerClosed := false
+		for _, op := range p.Ops {
+			if op.K == "p" && op.N[0] == 8 {
+				peerClosed = true
+			}
+		}
+		if !peerClosed {
+			return res.Fail("C15/pong-missing", "%d pings were fed to the reader, %d pongs are on the wire although nothing was closed and no deadline could expire", len(pingsFed), len(pongs))
+		}
+	}
+	res.Stat("pongs_on_wire", int64(pongsOnWire))
 	res.State = uint64(len(frames))<<24 ^ uint64(closeIdx+1)<<12 ^ uint64(stalls)
 	return res
 }
